@@ -167,7 +167,7 @@ Print Assumptions C02_registry.
 (** ... and that protocol table IS what go2coq reads from messages.go (CodecGen: the encode/decode
     programs of all registered types), for every type number; this puts the link from the decoder used
     above and in the differential's property predicate to the source into C02's own cone *)
-Module SpecIsSource.
+Section SpecIsSource.
   Import P9V.Codec.Layout P9V.Codec.Frame P9V.Codec.Reuse P9V.Codec.Spec9P P9V.gen.CodecGen P9V.Codec.GenCheck.
   Theorem C02_spec_is_source : forall t, t < 256 ->
     match gen_find t gen_msgs with
@@ -182,7 +182,7 @@ Module SpecIsSource.
     end.
   Proof. exact layout_is_spec. Qed.
 End SpecIsSource.
-Print Assumptions SpecIsSource.C02_spec_is_source.
+Print Assumptions C02_spec_is_source.
 
 (** "never panics": in these models the clause holds BY CONSTRUCTION -- [outcome] has no panic
     constructor, recv and the decoders are total Gallina functions -- so it is not a theorem about the
